@@ -86,6 +86,10 @@ def roundtrip(w, value):
     """write then read on the real store; returns (status, read-back value or exception name, bytes on disk, staging left)"""
     with sc.scratch_dir("c12") as d:
         store, file_path = build_store(d, w)
+        if w.get("pre") and file_path is not None and not w.get("mounted"):
+            # the path already holds something else (another store's file, a hand-edited marker ...)
+            with open(file_path, "wb") as f:
+                f.write(bytes.fromhex(w["pre"]))
         try:
             store.write(value)
         except Exception as e:      # noqa: BLE001
@@ -245,6 +249,8 @@ def explore_values(ctx, rng, stats, violations):
     for i, (store, enc, v) in enumerate(value_cases(rng, ctx.tier == "quick")):
         mounted = None if i % 5 else rng.choice(["shutil", "testing"])
         w = witness(store, enc, bool(i % 2), mounted, v)
+        if mounted is None and i % 3 == 0:
+            w["pre"] = rng.choice([b"previous content\n", b"\x80\x04K\x01.", b"{\"a\": 1}", b"x"]).hex()
         found, (status, got, data) = check_roundtrip(w, v)
         stats[store] = stats.get(store, 0) + 1
         stats["mounted"] += 1 if mounted else 0
